@@ -298,6 +298,13 @@ class C01(Check):
                 s['order'] = order
             if mode == 'wfile':
                 s['ask'] = core.weighted(orng, imgsim.ASK_MODES)
+                if orng.random() < 0.25:
+                    s['eof_read'] = False
+            if mode == 'bare':
+                s['end'] = core.weighted(orng, [(None, 6), ('finish_twice', 1),
+                                                ('empty_then_finish', 1)])
+            s['kind'] = core.weighted(orng, [(None, 8), ('bytearray', 1),
+                                             ('memoryview', 1)])
             if qrng.random() < (0.7 if fam == 'boundary' else 0.4):
                 s['q'] = gen_qplan(qrng, streams.n_chunks(r))
             scheds.append(s)
@@ -558,7 +565,8 @@ class C01(Check):
             errors = {}
             bad = []
             for name in F.FORMATS:
-                r = imgsim.drive_bare(name, data, sizes, qp)
+                r = imgsim.drive_bare(name, data, sizes, qp,
+                                      kind=s.get('kind'), end=s.get('end'))
                 per[name] = r['verdict']
                 errors[name] = r['error']
                 for pk in r['probes']:
@@ -575,7 +583,8 @@ class C01(Check):
             pers = 'iter' if s['mode'] == 'witer' else 'file'
             r = imgsim.drive_wrapper(data, sizes, pers, order=s.get('order'),
                                      wq=qp if qp else None,
-                                     ask=s.get('ask'))
+                                     ask=s.get('ask'), kind=s.get('kind'),
+                                     eof_read=s.get('eof_read', True))
             # a wrapper that raises or drops bytes is C06's subject; here it
             # is simply part of what this schedule concluded, so that a
             # schedule-dependent failure shows up as a disagreement
@@ -583,7 +592,8 @@ class C01(Check):
                    r['region_bad'],
                    'wlevel': [r['format'], r['formats'], r['error'],
                               b''.join(r['got']) == data]}
-        log.add('sched', s['mode'], s['fam'], s.get('ask'), len(sizes),
+        log.add('sched', s['mode'], s['fam'], s.get('ask'), s.get('kind'),
+                s.get('end'), s.get('eof_read', True), len(sizes),
                 sorted((k, imgsim._vt(v)) for k, v in out['per'].items()),
                 out['wlevel'], len(out['region_bad']))
         return out
@@ -657,10 +667,11 @@ class C01(Check):
                 c = copy.deepcopy(case)
                 del c['scheds'][j]['q']
                 yield c
-            if s.get('ask'):
-                c = copy.deepcopy(case)
-                del c['scheds'][j]['ask']
-                yield c
+            for key in ('ask', 'kind', 'end', 'eof_read'):
+                if s.get(key) not in (None, True):
+                    c = copy.deepcopy(case)
+                    del c['scheds'][j][key]
+                    yield c
             if s['mode'] != 'bare':
                 c = copy.deepcopy(case)
                 c['scheds'][j]['mode'] = 'bare'
